@@ -49,6 +49,10 @@ func NewFromASM(str string) (*Script, error) {
 	s := Script{}
 
 	for _, section := range strings.Split(str, " ") {
+		if section == "" {
+			// the ASM of an empty script is the empty string: nothing to append
+			continue
+		}
 		if val, ok := opCodeStrings[section]; ok {
 			_ = s.AppendOpcodes(val)
 		} else {
